@@ -132,6 +132,22 @@ def krum_gap_ok(J, f, k):
     return (sc[k] - sc[k - 1]) > 1e-6 * max(sc[-1], 1e-300)
 
 
+def fine_f64_matrix(rng):
+    """(J, f, k) with entries 2^30 + small integers and a clear gap between the k-th and the (k+1)-th Krum score
+    (None when the draw has a near tie)"""
+    m, n = rng.randint(5, 8), rng.randint(3, 5)
+    base = F(2 ** 30)
+    J = [[base + rng.randint(-3, 3) for _ in range(n)] for _ in range(m)]
+    f = rng.randint(1, m - 3)
+    for i in rng.sample(range(m), f):
+        J[i] = [x + rng.choice([-1, 1]) * rng.randint(6, 9) for x in J[i]]
+    k = rng.randint(1, 2)
+    sc = sorted(krum_scores(J, f))
+    if sc[k] - sc[k - 1] < 1e-3 * sc[-1]:
+        return None, None, None
+    return J, f, k
+
+
 def run(chk):
     rng = pyrandom.Random(chk.seed * 32452843 + 16)
     q = chk.tier == "quick"
@@ -228,6 +244,22 @@ def run(chk):
         chk.count(R.case_json(c) | {"J": f"{m}x{n} matrix, entries {base}+[-2,2]"}, nontrivial=True)
         for dt in ("f64", "f32"):
             oracle_krum(chk, c, dt, found)
+    # float64 matrices whose rows differ by less than float32 resolution (a common component of 2^30, deviations
+    # of a few units): every distance, and with it every score, is exact in float64 and zero in float32
+    n_fine = 0
+    for _ in range(200):
+        if n_fine >= (4 if q else 30):
+            break
+        J, f, k = fine_f64_matrix(rng)
+        if J is None:
+            continue
+        n_fine += 1
+        c = {"name": "Krum", "params": {"f": f, "k": k}, "J": J, "cat": "f64_below_f32_resolution",
+             "honest_rows": list(range(len(J)))}
+        chk.count(R.case_json(c) | {"J": f"{len(J)}x{len(J[0])} matrix, entries 2^30+[-3,3], {f} rows moved by 6..9"},
+                  nontrivial=True)
+        oracle_krum(chk, c, "f64", found)
+    chk.notes["f64_below_f32_resolution_cases"] = n_fine
     R.report_corr(chk, dis, found)
     chk.cov["rule"] = ("fault sequences: honest integer*2^k matrices (m<=7) with 0..b (resp. 0..f) rows "
                        "replaced by +-2^20..2^40 x honest scale, random garbage, copies of honest rows; "
